@@ -252,11 +252,16 @@ class SymEx:
             if v is not None and st.heap and isinstance(v, tuple) and v and v[0] in ('param', 'fld', 'payload'):
                 # a by-value object whose fields were assigned in place (`mut self` setters): the assignments travel with the value
                 ov = []
+                # (assigned through the local itself, or -- the object is owned by value here -- through a `&mut` to it that a helper / closure
+                # received: `fn set(mut self, step: impl FnOnce(&mut Self)) -> Self { step(&mut self); self }`)
+                lb_ = self.prog.bodies.get(key[1])
+                by_value = v[0] == 'param' and lb_ is not None and lb_.kind != 'closure' and key[2] < len(lb_.locals) and \
+                    not lb_.local_ty(key[2])['s'].startswith(('&', '*')) and bool(lb_.local_ty(key[2]).get('adt'))
                 for hk, hv in st.heap.items():
                     path, x = [], hk
-                    while isinstance(x, tuple) and x and x[0] == 'fld' and x != key:
+                    while isinstance(x, tuple) and x and x[0] == 'fld' and x != key and not (by_value and x == v):
                         path.append(x[2]); x = x[1]
-                    if x == key and path:
+                    if (x == key or (by_value and x == v)) and path:
                         ov.append((tuple(reversed(path)), hv))
                 if ov:
                     return ('overlay', v, tuple(sorted(ov, key=str)))
